@@ -1070,6 +1070,11 @@ NI_CTYPES = ['pthread_mutex_t', 'struct timespec', 'FILE', 'jmp_buf']
 def _batch(draw):
     I = lambda a, b: draw(st.integers(a, b))      # noqa: E731
     pick = lambda seq: draw(st.sampled_from(seq))  # noqa: E731
+
+    def chance(pct):
+        # Hypothesis draws the end points of an integer range far more often than 1/N, so rare events
+        # are tied to a window in the middle of the range
+        return 400 <= I(0, 999) < 400 + 10 * pct
     case = {'tag': 'random', 'enums': [], 'cbs': [], 'aliases': [], 'comps': []}
     for _ in range(I(2, 7)):
         case['enums'].append(_gen_enum(draw))
@@ -1095,7 +1100,7 @@ def _batch(draw):
         r = I(0, 99)
         if r < 30 or budget < 8:
             return ['b', pick(BASIC)]
-        if r < 42:
+        if r < 44:
             pk = pick(['utf8', 'gpointer', 'comp', 'comp', 'basic', 'filename', 'gconstpointer', 'pp', 'enum', 'op',
                        'inc', 'list', 'slist', 'hash', 'strv'])
             if pk == 'utf8':
@@ -1117,7 +1122,7 @@ def _batch(draw):
                 return ['a', nlen, gen_type(i, budget // nlen, in_union, level + 1, False)]
             return ['b', pick(BASIC)]
         if r < 84:
-            j = by_value_candidate(i, budget, I(0, 9) != 0)
+            j = by_value_candidate(i, budget, not chance(15))
             if j is None:
                 return ['b', pick(BASIC)]
             if I(0, 7) == 0:          # through an alias (typedef FooRj FooAlk)
@@ -1154,9 +1159,9 @@ def _batch(draw):
             return ['dis']
         return [mk]
 
-    refuse_batch = I(0, 24) == 0
+    refuse_batch = chance(4)
     refuse_at = I(0, n - 1)
-    union_cb_batch = I(0, 29) == 0
+    union_cb_batch = chance(3)
     for i in range(n):
         kind = pick(['record', 'record', 'record', 'record', 'record', 'union', 'union', 'class'])
         nm = draw(st.one_of(st.integers(1, 4), st.integers(1, 8)))
@@ -1176,7 +1181,7 @@ def _batch(draw):
             c['members'][I(0, nm - 1)]['t'] = ['cba', pick(CB_RET), [pick(CB_PARAM) for _ in range(I(0, 2))]]
         if refuse_batch and i == refuse_at:
             c['members'][I(0, nm - 1)]['t'] = ['u', pick(list(REFUSAL_KINDS))]
-        elif I(0, 99) < 12:
+        elif chance(12):
             uk = pick(UNKNOWN_DRAW)
             if uk == 'opaque':
                 T = ['u', 'opaque']
@@ -1269,20 +1274,22 @@ def health(agg, tier):
     def need(name, frac):
         if lab.get(name, 0) < frac * nb:
             probs.append('%s in %d of %d random batches' % (name, lab.get(name, 0), nb))
-    for k in ('b', 'e', 'r', 'cbt', 'cbi', 'cba', 'al', 'inc', 'ince', 'incal', 'ptr:utf8', 'ptr:gpointer', 'ptr:comp', 'ptr:basic',
-              'array:b', 'array:r', 'array:array', 'array:p', 'array:e'):
+    for k in ('b', 'e', 'r', 'cbt', 'cbi', 'cba', 'al', 'inc', 'incal', 'array:b', 'array:r', 'array:array', 'array:p', 'array:e'):
         need(k, 0.25)
-    for k in ('dis', 'ptrrec', 'pa', 'nicb', 'empty', 'ptr:op', 'ptr:list', 'ptr:inc'):
-        need(k, 0.06)
+    for k in ('ince', 'ptr:utf8', 'ptr:gpointer', 'ptr:comp', 'ptr:basic', 'ptr:op', 'ptr:list', 'ptr:inc', 'ptr:enum', 'ptr:pp',
+              'dis', 'ptrrec', 'pa', 'empty'):
+        need(k, 0.1)
+    need('nicb', 0.05)
     for c in ENUM_CLASSES:
         need('enumcls:' + c, 0.08)
-    need('compound:union', 0.9)
-    need('compound:class', 0.7)
-    need('depth>=3', 0.5)
-    need('padding', 0.9)
-    need('nested', 0.9)
-    need('unknown-direct', 0.5)
-    need('unknown-embedded', 0.2)
+    need('enumcls:need64', 0.02)
+    need('compound:union', 0.8)
+    need('compound:class', 0.5)
+    need('depth>=3', 0.4)
+    need('padding', 0.8)
+    need('nested', 0.7)
+    need('unknown-direct', 0.4)
+    need('unknown-embedded', 0.04)
     for k in ('opaque', 'opaque-inc', 'fam', 'ni'):
         need('unknown:' + k, 0.1)
     if tier == 'thorough':
